@@ -36,7 +36,7 @@ async fn connect_and_reset(local: IpAddr, server: SocketAddr, window: Duration) 
 
 pub const C19: Check = Check {
     id: "C19",
-    level: "exploration",
+    level: "fault_enumeration",
     rule: "two RTR listeners run in the same real rtr_listener future; listener A receives sequences of connections of \
            which a chosen subset fails per-connection setup (fault hook keyed by client source address 127.0.0.2, or a \
            keepalive value the kernel rejects), listener B (never failing) is the liveness control on the same runtime. \
